@@ -251,7 +251,7 @@ def finish(pid, tier, seed, meta, parts, wall, replayers=None, crashed=None):
             rp["replay"] = o["replay"]
             if o["replay"].get("reproduced"):
                 suffix = ""
-        if o.get("backend", "").startswith(("B-", "concrete-path", "contract-stub", "native")):
+        if o.get("backend", "").startswith(("B-", "concrete-path", "contract-stub", "native", "identity")):
             rp["replay"] = dict(reproduced=True, how="the failing case was found by running the real code natively",
                                 case=o.get("model"))
             suffix = ""
